@@ -253,7 +253,7 @@ func (g *Gen) namespace(tree Snap) Step {
 		return Step{K: "Chmod", P: p, Perm: ChmodModes[g.R.Intn(len(ChmodModes))]}
 	case k < 87:
 		g.n++
-		return Step{K: "Chtimes", P: p, MTime: 1_000_000_000 + int64(g.n)*3600 + int64(g.R.Intn(3000))}
+		return Step{K: "Chtimes", P: p, MTime: 1_000_000_000 + int64(g.n)*3600 + int64(g.R.Intn(3000)), N: g.R.Intn(3) / 2}
 	case k < 92:
 		return Step{K: "Stat", P: p}
 	case k < 96:
